@@ -253,6 +253,11 @@ class H2Protocol:
                 self.connection.send_headers(event.stream_id, event.headers)
                 await self._flush()
             elif isinstance(event, StreamClosed):
+                if event.stream_id not in self.streams:
+                    # Already closed (reset by the client, or the
+                    # connection has closed): nothing has changed,
+                    # notably not for how long it has been idle.
+                    return
                 await self._reset_abandoned_response(event.stream_id)
                 await self._close_stream(event.stream_id)
                 idle = len(self.streams) == 0 or all(
